@@ -94,6 +94,43 @@ PUNCT_TYPES = {"Asterisk", "Modulo", "BitwiseXor", "BitwiseNot", "Comma", "Colon
                "RightBrace", "LeftBracket", "RightBracket", "Dollar", "Filter"}
 
 
+def scan_all(texts, batch=4000, hang_budget=6):
+    """token kinds of the real scanner for each text; a text the scanner does not return from (confirmed alone with a
+    longer deadline) is ["HANG"]; after hang_budget hangs the remaining texts are not scanned (["SKIPPED"])"""
+    import json as _json
+    out = [None] * len(texts)
+    todo = [(k, min(k + batch, len(texts))) for k in range(0, len(texts), batch)]
+    hangs = 0
+    rnd_id = 0
+    while todo:
+        cases = [{"id": "scan%d_%d" % (rnd_id, a), "kind": "scan", "srcs": texts[a:b]} for a, b in todo]
+        res = core.run_cases(cases, deadline_ms=3000)
+        nxt = []
+        for (a, b), c in zip(todo, cases):
+            r = res[c["id"]]
+            if r.get("how") == "ok":
+                out[a:b] = r["toks"]
+                continue
+            done = [_json.loads(x) for x in r.get("done_outs", [])] if r.get("how") == "timeout" else []
+            out[a:a + len(done)] = done
+            k = a + len(done)
+            if hangs >= hang_budget:
+                out[k:b] = [["SKIPPED"]] * (b - k)
+                continue
+            # the text that was running: alone, with a longer deadline
+            one = core.run_cases([{"id": "scan1_%d" % k, "kind": "scan", "srcs": [texts[k]]}], deadline_ms=10000, shards=1, _confirm=False)["scan1_%d" % k]
+            if one.get("how") == "ok":
+                out[k] = one["toks"][0]
+            else:
+                out[k] = ["HANG"]
+                hangs += 1
+            if k + 1 < b:
+                nxt.append((k + 1, b))
+        todo = nxt
+        rnd_id += 1
+    return out
+
+
 def scanner_model(rep, tier):
     """Scanner.tla: TLC checks IndexInBounds, Progress, Bounded and LineOK for every class string up to length 3 (4), and
     (ScanGen) writes the token kinds it prescribes; the real scanner's tokens on a concrete text of each shape are
@@ -107,16 +144,20 @@ def scanner_model(rep, tier):
     for c in cases:
         t = "".join(REP_CHARS[cl][(c["id"] + i) % len(REP_CHARS[cl])] for i, cl in enumerate(c["s"]))
         texts.append(t)
-    res = core.run_cases([{"id": "scan%d" % k, "kind": "scan", "srcs": texts[k:k + 4000]} for k in range(0, len(texts), 4000)])
-    real = []
-    for k in range(0, len(texts), 4000):
-        real += res["scan%d" % k]["toks"]
+    real = scan_all(texts)
     drift = []
     for c, t, toks in zip(cases, texts, real):
         kinds = [("PUNCT" if x in PUNCT_TYPES else KIND_OF.get(x, "Word" if not x.startswith("PANIC") and x != "RUNAWAY" else x)) for x in toks]
         want = [k for k in c["toks"] if k != "Eof"]
         if kinds != want:
             drift.append({"classes": c["s"], "text": t, "model": want, "scanner": kinds})
+        # the model ends on every text without reading outside it; so must the scanner
+        for x in toks:
+            if x.startswith("PANIC") or x in ("RUNAWAY", "HANG"):
+                what = {"P": "panics", "R": "does not stop producing tokens", "H": "does not return"}[x[0]]
+                rep.disagree("scanner %s where the model ends: %s" % (what, x.split("|")[0][:60] if x[0] == "P" else " ".join(c["s"][-2:])),
+                             {"classes": c["s"], "text": t, "model": want, "scanner": kinds})
+                break
     rep.notes["scanner_model_strings"] = len(cases)
     rep.notes["scanner_model_drift"] = len(drift)
     rep.notes["scanner_model_drift_samples"] = drift[:5]
@@ -152,13 +193,13 @@ def run(rep, tier, seed):
     classes = {}
     distinct_fail = {}
     batch = 4000
-    budget = {"hangs": 12}          # each hang costs a deadline; with this many found the verdict is settled
+    budget = {"hangs": 8}          # each hang costs a deadline; with this many found the verdict is settled
     skipped = 0
 
     def confirm(cid, text):
         """the outcome of one text run on its own with a long deadline (a stall of a busy machine is not a hang)"""
         c = {"id": cid + "!", "kind": "front", "srcs": [text]}
-        r = core.run_cases([c], deadline_ms=20000, shards=1, _confirm=False)[c["id"]]
+        r = core.run_cases([c], deadline_ms=10000, shards=1, _confirm=False)[c["id"]]
         if r.get("how") == "ok":
             return r["outs"][0]
         budget["hangs"] -= 1
